@@ -45,7 +45,7 @@ def main():
         "hooks": {"guard": "GENLM_GRAMMAR_VERIF", "enable": "no source hooks: the harness observes public attributes only and sets GENLM_GRAMMAR_VERIF=1 in the worker environment (unused by /repo)",
                   "baseline_off_cmd": BASELINE, "source_commits": [], "add_only": True},
         "engines": [{"name": "lean4-proof+correspondence", "path": "harness/check.py", "serves_properties": [c["property_id"] for c in checks],
-                     "kind_free_text": "Lean 4 theorems about executable models/specifications (lean/GenlmModel), translator for arithmetic (harness/translate.py), "
+                     "kind_free_text": "Lean 4 theorems about executable models/specifications (lean/GenlmModel), translator for arithmetic and for the builder functions (harness/translate.py -> lean/GenlmModel/Generated, re-proved equal to the hand models by Proofs/GenLink), "
                                        "differential correspondence between the real library and the native Lean driver (lean/Main.lean)"}],
         "checks": checks,
         "not_applicable": na,
